@@ -294,11 +294,22 @@ func runC05(t *simrt.Tape, o Opts) Outcome {
 			w.Faults.Kinds["ms.err"] = true
 			w.Faults.Kinds["ms.readonly-faults"] = true
 		}
+		if !skewed && t.Choose(5, "kms-refuses-revoked") == 1 {
+			// a persistent fault tied to the revocation: the revoked system key can no longer be unwrapped
+			// (decrypts that need it fail, legitimately); a replacement can be created, so every clause
+			// about new records stands, and an encrypt that fails is not excused by it
+			w.KMSRefusesRevoked = true
+		}
 		classes := map[string]bool{}
 		switched := newSwitchLog()
 		used := map[string]bool{} // "proc|id@created" keys a process has produced records under
 		h.hooks.afterEncrypt = func(se *world.Sess, rec *world.Rec, op *world.OpRec) {
 			if rec == nil {
+				if op.Refused > 0 && hadDuplicateInsert(w, op) {
+					// the replacement collided with the revoked key's creation stamp (no later stamp can be
+					// created yet), so the SDK fell back to the stored key - which the KMS refuses
+					return
+				}
 				if op.Panic == "" && op.Faulted == 0 {
 					w.Violate("encrypt-failed", "encrypt-failed/no-fault", "encrypt failed although nothing was injected: %v", op.Err)
 				}
@@ -361,7 +372,7 @@ func runC05(t *simrt.Tape, o Opts) Outcome {
 		h.hooks.afterDecrypt = func(se *world.Sess, rec *world.Rec, got []byte, op *world.OpRec) {
 			// records written under a (now) revoked key remain decryptable
 			count(st.Oracle, "decrypt-under-revoked")
-			if op.Panic == "" && op.Faulted == 0 && (op.Err != nil || string(got) != string(rec.Payload)) {
+			if op.Panic == "" && op.Faulted == 0 && !(op.Refused > 0 && op.Err != nil) && (op.Err != nil || string(got) != string(rec.Payload)) {
 				w.Violate("decrypt-failed", "decrypt-failed", "record r%d (IK@%d) no longer decrypts: %v", rec.N, rec.IKCreated, op.Err)
 			}
 		}
@@ -430,4 +441,14 @@ func (l *switchLog) wentBack(scope string, created int64, opIdx int) (int64, boo
 func revokedBefore(w *world.World, id string, created int64, t time.Duration) (time.Duration, bool) {
 	T, ok := revokedAt(w, id, created)
 	return T, ok && T <= t
+}
+
+// hadDuplicateInsert reports whether an insert of this operation was refused as a duplicate.
+func hadDuplicateInsert(w *world.World, op *world.OpRec) bool {
+	for _, c := range w.Calls {
+		if c.Op == op && c.Class == "ms.store" && c.Result == "dup" {
+			return true
+		}
+	}
+	return false
 }
